@@ -567,4 +567,30 @@ theorem benchOK_benchOf (nl : Nl) (hc : CommonNl nl) (hk : ∀ g ∈ nl.gates, g
     obtain ⟨g, hg, rfl⟩ := List.mem_map.mp hb
     simpa [nlBGate] using hk g hg
 
+/-! ## statement order and grouping are irrelevant at the level of the denotations -/
+
+/-- `BenchModel`, the interface positions and the observations depend on a description only through `benchGates` (gate statements
+in text order) and `benchPorts` (interface names in text order): interleaving, grouping of interface statements do not matter -/
+theorem benchModel_congr_stmts {α} (bs bs' : List BStmt) (hg : benchGates bs' = benchGates bs) (hp : benchPorts bs' = benchPorts bs)
+    (z : α) (prim : String → α → α → α → α → α) (a : Nat → α) (σ : String → α) :
+    (BenchModel bs' z prim a σ ↔ BenchModel bs z prim a σ) ∧ benchSNames bs' = benchSNames bs ∧
+    benchCaptures bs' σ = benchCaptures bs σ := by
+  have hs : benchSNames bs' = benchSNames bs := by simp only [benchSNames, hg, hp]
+  refine ⟨?_, hs, ?_⟩
+  · simp only [BenchModel, stmtVal, freeVal, isGateName, benchSPos, hs, hg, hp]
+  · simp only [benchCaptures, isGateName, hs, hg]
+    rfl
+
+/-- `VModel`, the interface positions and the observations depend on a module body only through its declarations table `sigDecls`,
+its instances in text order and its assign pairs -/
+theorem vModel_congr_stmts {α} (tl : TL) (ports : List String) (vs vs' : List Stmt) (hd : sigDecls vs' = sigDecls vs)
+    (hi : vInsts vs' = vInsts vs) (ha : ∀ ds, assignPairs ds vs' = assignPairs ds vs)
+    (z : α) (neg : α → α) (prim : String → α → α → α → α → α) (a : Nat → α) (σ : String → α) :
+    (VModel tl ports vs' z neg prim a σ ↔ VModel tl ports vs z neg prim a σ) ∧ vSNames ports vs' = vSNames ports vs ∧
+    vCaptures tl ports vs' z prim σ = vCaptures tl ports vs z prim σ := by
+  have hs : vSNames ports vs' = vSNames ports vs := by simp only [vSNames, hd, hi]
+  refine ⟨?_, hs, ?_⟩
+  · simp only [VModel, vSPos, vPairs, drivenSigs, hs, hd, hi, ha]
+  · simp only [vCaptures, hs, hd, hi]
+
 end KV.Netlist
